@@ -73,4 +73,145 @@ pub mod sort_c {
     include!("/verif/kani/gen/playback_physical_operators_sort__sort_c.rs");
 }
 
+/// C25: the `LogicalPlan::Limit` arm of PhysicalPlanner::create_physical_plan_inner (src/physical/planner.rs,
+/// cut from there by kx; this module only hosts the harness). LIMIT n OFFSET m over a plan must become an
+/// operator tree that returns rows m+1..m+n of the child's order: either a LimitExec(skip, fetch) over the
+/// child's plan, or - the Sort+Limit fusion - a sort WITH FETCH over the sort's child, which is only the same
+/// thing when there is no OFFSET, the fetch is the LIMIT, and the sort keys are the Sort node's.
+pub mod fuse_c {
+    pub type Result<T> = std::result::Result<T, ()>;
+    #[derive(Clone, Copy, PartialEq)]
+    pub struct KOrder(pub u8);
+    impl KOrder {
+        pub fn clone(&self) -> KOrder {
+            *self
+        }
+    }
+    /// `Arc<LogicalPlan>` of the real nodes: a shared reference here (no drop glue, no recursion for CBMC)
+    #[derive(Clone, Copy)]
+    pub struct KRef<'a>(pub &'a LogicalPlan<'a>);
+    impl<'a> KRef<'a> {
+        pub fn as_ref(&self) -> &LogicalPlan<'a> {
+            self.0
+        }
+    }
+    impl<'a> std::ops::Deref for KRef<'a> {
+        type Target = LogicalPlan<'a>;
+        fn deref(&self) -> &LogicalPlan<'a> {
+            self.0
+        }
+    }
+    pub struct KSortNode<'a> {
+        pub input: KRef<'a>,
+        pub order_by: KOrder,
+    }
+    /// a logical plan: a Sort node, or any other node (identified by a number)
+    pub enum LogicalPlan<'a> {
+        Sort(KSortNode<'a>),
+        Other(u8),
+    }
+    pub struct KLimitNode<'a> {
+        pub input: KRef<'a>,
+        pub skip: usize,
+        pub fetch: Option<usize>,
+    }
+    /// identity of a logical subtree: (is it a Sort node, its number / its order_by, the number of the Sort's child)
+    fn ident(p: &LogicalPlan) -> (bool, u8, u8) {
+        match p {
+            LogicalPlan::Sort(s) => (true, s.order_by.0, match s.input.as_ref() {
+                LogicalPlan::Other(i) => *i,
+                LogicalPlan::Sort(_) => 255,
+            }),
+            LogicalPlan::Other(i) => (false, *i, 0),
+        }
+    }
+    /// a physical operator: what it is and what it was built from
+    #[derive(Clone, Copy, PartialEq)]
+    pub struct KOp {
+        pub kind: u8, // 0 = the plan OF a logical subtree, 1 = SortExec with fetch, 2 = ExternalSortExec with fetch, 3 = LimitExec
+        pub of: (bool, u8, u8),
+        pub order: KOrder,
+        pub skip: usize,
+        pub fetch: Option<usize>,
+    }
+    pub struct Arc;
+    impl Arc {
+        pub fn new(op: KOp) -> KOp {
+            op
+        }
+    }
+    #[derive(Clone, Copy)]
+    pub struct KPool;
+    #[derive(Clone, Copy)]
+    pub struct KCfg;
+    pub struct ExternalSortExec;
+    impl ExternalSortExec {
+        pub fn with_fetch(input: KOp, order_by: KOrder, _pool: KPool, _cfg: KCfg, fetch: usize) -> KOp {
+            assert!(input.kind == 0);
+            KOp { kind: 2, of: input.of, order: order_by, skip: 0, fetch: Some(fetch) }
+        }
+    }
+    pub struct SortExec;
+    impl SortExec {
+        pub fn with_fetch(input: KOp, order_by: KOrder, fetch: usize) -> KOp {
+            assert!(input.kind == 0);
+            KOp { kind: 1, of: input.of, order: order_by, skip: 0, fetch: Some(fetch) }
+        }
+    }
+    pub struct LimitExec;
+    impl LimitExec {
+        pub fn new(input: KOp, skip: usize, fetch: Option<usize>) -> KOp {
+            assert!(input.kind == 0);
+            KOp { kind: 3, of: input.of, order: KOrder(0), skip, fetch }
+        }
+    }
+    pub struct KPlanner {
+        pub memory_pool: Option<KPool>,
+        pub config: Option<KCfg>,
+    }
+    impl KPlanner {
+        pub fn use_spillable(&self) -> bool {
+            self.memory_pool.is_some() && self.config.is_some()
+        }
+        /// oracle for the recursive call: the physical plan of that logical subtree
+        pub fn create_physical_plan_inner(&self, p: &LogicalPlan) -> Result<KOp> {
+            Ok(KOp { kind: 0, of: ident(p), order: KOrder(0), skip: 0, fetch: None })
+        }
+    }
+    include!("/verif/kani/gen/kx_c25_limit_fusion.rs");
+
+    /// every skip, every fetch (None, 0, beyond any row count), input a Sort node or anything else,
+    /// spillable planner or not
+    #[kani::proof]
+    fn c25_kx_limit_arm_means_limit_offset() {
+        let child = LogicalPlan::Other(kani::any());
+        let other = LogicalPlan::Other(kani::any());
+        let sort = LogicalPlan::Sort(KSortNode { input: KRef(&child), order_by: KOrder(kani::any()) });
+        let input: &LogicalPlan = if kani::any() { &sort } else { &other };
+        let input_id = ident(input);
+        let node = KLimitNode { input: KRef(input), skip: kani::any(), fetch: if kani::any() { Some(kani::any()) } else { None } };
+        let spill: bool = kani::any();
+        let planner = KPlanner { memory_pool: if spill { Some(KPool) } else { None }, config: if spill { Some(KCfg) } else { None } };
+        let out = planner.kx_c25_limit_fusion(&node).expect("no oracle fails");
+        if out.kind == 3 {
+            // LimitExec(skip, fetch) over the plan of the child
+            assert!(out.of == input_id && out.skip == node.skip && out.fetch == node.fetch);
+        } else {
+            // a fused sort-with-fetch returns the FIRST `fetch` rows of the order: only equal to
+            // LIMIT/OFFSET when there is no OFFSET, the fetch is the LIMIT and the keys are the Sort's
+            assert!(out.kind == 1 || out.kind == 2);
+            assert!(node.skip == 0);
+            assert!(node.fetch.is_some() && out.fetch == node.fetch);
+            assert!(input_id.0); // the input is a Sort node ...
+            assert!(out.order.0 == input_id.1); // ... sorted by its keys ...
+            assert!(out.of == (false, input_id.2, 0)); // ... over the plan of the Sort's child
+            assert!((out.kind == 2) == spill);
+        }
+        kani::cover!(out.kind == 3 && input_id.0);
+        kani::cover!(out.kind == 2);
+        kani::cover!(out.kind == 1);
+    }
+    include!("/verif/kani/gen/playback_physical_operators_sort__fuse_c.rs");
+}
+
 include!("/verif/kani/gen/playback_physical_operators_sort.rs");
